@@ -133,7 +133,7 @@ type Prop struct {
 	Procs int
 	// Workers: number of worker processes (0 = 16).
 	Workers int
-	// RunTimeoutSec: watchdog per run (0 = default 20).
+	// RunTimeoutSec: watchdog per run (0 = default 10).
 	RunTimeoutSec int
 	Assumptions   []string
 	Components    map[string]string
